@@ -378,6 +378,18 @@ impl Chitchat {
             return;
         }
 
+        if last_gc_version < node_state.last_gc_version() {
+            // Tombstones are not collected at the same time on all nodes: the fetched state may
+            // come from a peer that has collected less than the copy we already hold. Applying it
+            // would lower our last gc version.
+            warn!(
+                node_last_gc_version = node_state.last_gc_version(),
+                delta_last_gc_version = last_gc_version,
+                "attempted to reset node with a state that has a lower last gc version"
+            );
+            return;
+        }
+
         let monotonic_property_before = node_state.monotonic_property();
 
         // We make sure that the node is listed in the failure detector,
@@ -402,6 +414,9 @@ impl Chitchat {
             node_state.remove_key_value_internal(&key);
         }
         node_state.set_last_gc_version(last_gc_version);
+        // The most recent writes of the fetched state may have been deleted and garbage
+        // collected: `max_version` can be higher than the version of every key-value.
+        node_state.set_max_version(max_version.max(node_state.max_version()));
 
         let monotonic_property_after = node_state.monotonic_property();
 
